@@ -217,13 +217,22 @@ func firstLine(s string) string {
 // parameter and receiver renamed (x → x_ar) — a variant that behaves exactly like the tree — and the quick rules are run on
 // it. They must be silent: a rule that reports something here depends on what a local is called.
 func alphaSelfTest(p *props.Property, repo, root string) (ok bool, reported []string, note string) {
+	return variantSelfTest(p, repo, root, "-alpha-out")
+}
+
+// noiseSelfTest: the same with a no-op statement inserted at the start of every block.
+func noiseSelfTest(p *props.Property, repo, root string) (ok bool, reported []string, note string) {
+	return variantSelfTest(p, repo, root, "-noise-out")
+}
+
+func variantSelfTest(p *props.Property, repo, root, genFlag string) (ok bool, reported []string, note string) {
 	self, _ := os.Executable()
 	tmp, err := os.MkdirTemp("", "kapalpha-")
 	if err != nil {
 		return true, nil, "skipped: " + err.Error()
 	}
 	defer os.RemoveAll(tmp)
-	gen := exec.Command(self, "-property", p.ID, "-repo", repo, "-root", root, "-alpha-out", tmp)
+	gen := exec.Command(self, "-property", p.ID, "-repo", repo, "-root", root, genFlag, tmp)
 	gen.Env = os.Environ()
 	if out, err := gen.CombinedOutput(); err != nil {
 		return true, nil, "skipped: alpha variant could not be written: " + firstLine(string(out))
